@@ -87,9 +87,19 @@ func VH_C10() {
 	b1 := targets[vsym.Choice("bucket", len(targets))]
 	kl := 1 + vsym.Choice("keylen", vsym.Param("maxkeylen", 3))
 	k1 := vsym.String("key", kl)
+	// optionally continue the free bytes with the path of another bucket's key,
+	// so that "../" + "bbb/x" and similar escapes are inside the bound
+	if len(buckets) > 1 {
+		switch vsym.Choice("tail", 3) {
+		case 1:
+			k1 += "bbb/x"
+		case 2:
+			k1 += "aaa/d/y"
+		}
+	}
 	if vsym.Param("pathlike", 0) == 1 {
 		// concentrate on path-like keys: bytes from { '.', '/', '\\', 'b', 'x' }
-		for i := 0; i < kl; i++ {
+		for i := 0; i < kl; i++ { // only the free bytes
 			c := k1[i]
 			vsym.Assume(c == '.' || c == '/' || c == '\\' || c == 'b' || c == 'x' || c == 'd' || c == 'y')
 		}
